@@ -24,98 +24,10 @@ mod util;
 
 use common::report;
 
-#[derive(Clone, Debug)]
-pub struct Cfg {
-    pub check: String,
-    pub thorough: bool,
-    pub shard: u64,
-    pub nshards: u64,
-    pub seed: u64,
-    pub only: Option<String>,
-    pub extra: Vec<String>,
-}
-
-impl Cfg {
-    /// Does this shard own item `i` of an enumerated space?
-    pub fn mine(&self, i: u64) -> bool {
-        self.only.is_some() || i % self.nshards == self.shard
-    }
-    pub fn pick<T>(&self, quick: T, thorough: T) -> T {
-        if self.thorough {
-            thorough
-        } else {
-            quick
-        }
-    }
-    /// argv that re-runs exactly one case.
-    pub fn replay(&self, case: &str) -> Vec<String> {
-        vec![
-            "hv".into(),
-            self.check.clone(),
-            "--tier".into(),
-            if self.thorough { "thorough".into() } else { "quick".into() },
-            "--seed".into(),
-            self.seed.to_string(),
-            "--only".into(),
-            case.to_string(),
-        ]
-    }
-    pub fn wants(&self, case: &str) -> bool {
-        match &self.only {
-            None => true,
-            Some(o) => o == case || case.starts_with(&format!("{o}:")) || o.starts_with(&format!("{case}:")),
-        }
-    }
-}
-
-fn parse() -> Cfg {
-    let a: Vec<String> = std::env::args().collect();
-    if a.len() < 2 {
-        eprintln!("usage: hv <check> [--tier quick|thorough] [--shard I] [--nshards N] [--seed S] [--only CASE]");
-        std::process::exit(2);
-    }
-    let mut c = Cfg {
-        check: a[1].to_lowercase(),
-        thorough: false,
-        shard: 0,
-        nshards: 1,
-        seed: 1,
-        only: None,
-        extra: Vec::new(),
-    };
-    let mut i = 2;
-    while i < a.len() {
-        let v = a.get(i + 1).cloned().unwrap_or_default();
-        match a[i].as_str() {
-            "--tier" => {
-                c.thorough = v == "thorough";
-                i += 1;
-            }
-            "--shard" => {
-                c.shard = v.parse().unwrap_or(0);
-                i += 1;
-            }
-            "--nshards" => {
-                c.nshards = v.parse().unwrap_or(1).max(1);
-                i += 1;
-            }
-            "--seed" => {
-                c.seed = v.parse().unwrap_or(1);
-                i += 1;
-            }
-            "--only" => {
-                c.only = Some(v);
-                i += 1;
-            }
-            other => c.extra.push(other.to_string()),
-        }
-        i += 1;
-    }
-    c
-}
+pub use common::cli::Cfg;
 
 fn main() {
-    let cfg = parse();
+    let cfg = common::cli::parse("hv");
     common::sys::raise_nofile();
     unsafe { libc::signal(libc::SIGPIPE, libc::SIG_IGN) };
     report::init(&cfg.check.to_uppercase(), cfg.shard, cfg.seed);
